@@ -2,6 +2,15 @@
 """(Re)build seeded/<id>/meta.json from the README of the change, the confirmation runs and checks.json."""
 import json, os, re, glob
 props = {json.loads(l)['id']: json.loads(l) for l in open('/verif/properties.jsonl')}
+# titles for changes whose README does not start with one
+TITLES = {
+ "C04-C": "conns: first-flight buffer pooled with sync.Pool and released twice on the discard path (two later concurrent handlers share one buffer)",
+ "C09-C": "registration: the New announcement is published to the detector after the registration mutex is released",
+ "C10-C": "station: phantom address formatted once per registration (cached text goes stale when the registrar's phantom override is applied)",
+ "C13-C": "regprocessor: selector read lock narrowed to each phantom selection (a reload can land between the v4 and v6 selections of one request)",
+ "C16-C": "dtls: write flow control factored into waitWritable, writeMutex no longer held across stream.Write",
+ "C18-C": "liveness LRU cache: Add reserves the LRU slot before writing the verdict to the map",
+}
 def section(readme, pat):
     m = re.search(r'^#+\s*[^\n]*(' + pat + r')[^\n]*\n(.*?)(?=^#+\s|\Z)', readme, re.M | re.S | re.I)
     return re.sub(r'\s+', ' ', m.group(2)).strip() if m else ''
@@ -10,6 +19,7 @@ for d in sorted(glob.glob('/verif/seeded/C*')):
     pid, v = sid.split('-')
     readme = open(d + '/README.md').read()
     title = readme.strip().split('\n')[0].lstrip('# ').strip()
+    title = TITLES.get(sid, title)
     breaks = section(readme, r'broken|clause|breaks') or section(readme, r'change')
     needs = section(readme, r'needs')
     demos = sorted(os.path.basename(f) for f in glob.glob(d + '/*_test.go'))
@@ -17,6 +27,8 @@ for d in sorted(glob.glob('/verif/seeded/C*')):
     for b in demos:
         m = [x for x in re.findall(r'[A-Za-z0-9_./-]*/' + re.escape(b), readme) if 'MUTATION' not in x]
         dest[b] = m[0].lstrip('./') if m else ''
+    if sid == "C20-C" and os.path.exists(d + "/meta.json"):
+        continue  # README uses inline (iv)/(v) markers: meta filled by hand
     meta = {"id": sid, "property": pid, "property_title": props[pid]['title'], "title": title,
             "breaks": breaks[:1500], "needs_to_manifest": needs[:1500],
             "files": {"patch": "patch.diff (applies to the current /repo tree)", "demonstration": dest, "description": "README.md (as written by the sub-agent that produced the change)"}}
